@@ -336,6 +336,20 @@ def spec (req : Json) : Except String Json := do
         for f in r.fields do
           if (s.splitOn (f.javaName ++ "=")).length < 2 then fails := add fails "java" "toString does not mention every field" i i
       | _ => fails := add fails "java" "toString not executable" i i
+  -- the link between the declaration and the object: every field, read by its declared name, holds the value that was
+  -- given for its position in the declaration (`impl.held.<target>[object][k]`, `impl.heldFields[k]` = the field's name)
+  let heldNames := (impl.getObjValAs? (Array String) "heldFields").toOption.getD #[]
+  for lang in ["cpp", "java"] do
+    match (impl.getObjVal? "held").toOption.bind (fun h => (h.getObjValAs? (Array Json) lang).toOption) with
+    | some rows =>
+      for i in idx do
+        match rows[i]? with
+        | some (.arr row) =>
+          for k in List.range row.size do
+            if row[k]! == Json.bool false then
+              fails := add fails lang s!"a field read by its declared name does not hold the value given for its position in the declaration ({heldNames[k]?.getD "?"})" i i
+        | _ => pure ()
+    | none => pure ()
   let hasOpt := r.fields.any (·.optional)
   let clauses := (if c.ord && hasOpt then ["optional-under-ord"] else [])
   pure (Json.mkObj [("holds", fails.isEmpty),
